@@ -425,3 +425,65 @@ func raceFactsLean(repo string, vals map[string]int) string {
 	fmt.Fprintf(&sb, "/-- the functions of package ship that assign SmeHelloStateReadyInit -/\ndef readyInitSites : List String := %s\n\n/-- handleState: what the condition of the branch that assigns SmeHelloStateReadyInit consists of (calls, role constants; anything but `||` and `==` is listed as OTHER-OPERATOR) -/\ndef readyInitGuard : List String := %s\n\nend ShipVerif.Generated\n", strs(sites), strs(gs))
 	return sb.String()
 }
+
+// notifyFactsLean: hub/hub.go deliverPairingNotifications - is the "delivery active" mark cleared inside the critical
+// section that finds the queue empty (between Lock and Unlock, in the branch of `len(queue) == 0`, no deferred code)?
+func notifyFactsLean(repo string) string {
+	f := parse(repo, "hub/hub.go")
+	fd := funcDecl(f, "deliverPairingNotifications")
+	clear := false
+	if fd != nil && fd.Body != nil {
+		hasDefer := false
+		clears := 0
+		ast.Inspect(fd.Body, func(n ast.Node) bool {
+			switch x := n.(type) {
+			case *ast.DeferStmt:
+				hasDefer = true
+			case *ast.AssignStmt:
+				if len(x.Lhs) == 1 && sel(x.Lhs[0]) == "pairingNotificationsActive" {
+					clears++
+				}
+			}
+			return true
+		})
+		inSection := false
+		ast.Inspect(fd.Body, func(n ast.Node) bool {
+			is, ok := n.(*ast.IfStmt)
+			if !ok {
+				return true
+			}
+			b, ok := is.Cond.(*ast.BinaryExpr)
+			if !ok || b.Op != token.EQL || lit(b.Y) != "0" {
+				return true
+			}
+			c, ok := b.X.(*ast.CallExpr)
+			if !ok || sel(c.Fun) != "len" || len(c.Args) != 1 || sel(c.Args[0]) != "pairingNotifications" {
+				return true
+			}
+			// within the branch: the assignment of false must come before the Unlock call
+			state := 0 // 0: nothing yet, 1: cleared, 2: cleared then unlocked
+			for _, st := range is.Body.List {
+				switch x := st.(type) {
+				case *ast.AssignStmt:
+					if len(x.Lhs) == 1 && sel(x.Lhs[0]) == "pairingNotificationsActive" && len(x.Rhs) == 1 && sel(x.Rhs[0]) == "false" && state == 0 {
+						state = 1
+					}
+				case *ast.ExprStmt:
+					if c, ok := x.X.(*ast.CallExpr); ok && sel(c.Fun) == "Unlock" {
+						if state == 1 {
+							state = 2
+						} else {
+							state = -1
+						}
+					}
+				}
+			}
+			if state == 2 {
+				inSection = true
+			}
+			return true
+		})
+		clear = inSection && !hasDefer && clears == 1
+	}
+	return fmt.Sprintf("/- GENERATED by /verif/extract from /repo — do not edit. -/\nimport ShipVerif.Model.Notify\nnamespace ShipVerif.Generated\n\n/-- hub/hub.go deliverPairingNotifications: the \"delivery active\" mark is cleared (once, not in deferred code) in the critical section that finds the queue empty -/\ndef notifyCfg : ShipVerif.Notify.Cfg := { clearInSection := %v }\n\nend ShipVerif.Generated\n", clear)
+}
